@@ -45,6 +45,17 @@ structure ExposureLaws (P : Plane W) (Q : Preds W) : Prop where
   /-- a failed `UpgradeBatch` changed nothing -/
   upgrade_err_same : ∀ br ns w w', P.upgrade br ns w = .val (w', .err) → w' = w
 
+/-- the `UpgradeBatch` part of the exposure laws: all that `x_write_within_batch` needs -/
+structure UpgradeLaws (P : Plane W) (Q : Preds W) : Prop where
+  upgrade_monotone : ∀ br ns w w' r, Q.wf w = true → Q.expoOK br w = true →
+    P.upgrade br ns w = .val (w', r) → Q.exposure w ≤ Q.exposure w'
+  upgrade_within : ∀ br ns w w' r, Q.wf w = true → Q.expoOK br w = true →
+    P.upgrade br ns w = .val (w', r) → Q.exposure w' ≤ max (Q.exposure w) (Q.allowed br w)
+  upgrade_err_same : ∀ br ns w w', P.upgrade br ns w = .val (w', .err) → w' = w
+
+theorem ExposureLaws.upgradeLaws {P : Plane W} {Q : Preds W} (E : ExposureLaws P Q) : UpgradeLaws P Q :=
+  ⟨E.upgrade_monotone, E.upgrade_within, E.upgrade_err_same⟩
+
 /-- the readiness verdict the oracles use: the plane's predicate for the release as the executor holds it -/
 abbrev readyNow (Q : Preds W) (br : BR) (w : W) : Bool := Q.ready (withFinalizer br) w
 
@@ -595,7 +606,7 @@ theorem x_settles [DecidableEq W] (P : Plane W) (Q : Preds W) (L : Laws P Q) (br
 /-- **C01 `x_write_within_batch`** — for every lawful plane: a reconcile of a release that is and stays `Progressing` changes the
     exposure of the new revision only upwards and at most to what the plan entry of the batch the *persisted* status points at
     allows; every other such reconcile leaves the exposure as it is. -/
-theorem x_write_within_batch (P : Plane W) (Q : Preds W) (L : Laws P Q) (E : ExposureLaws P Q) (br : BR) (w : W)
+theorem x_write_within_batch (P : Plane W) (Q : Preds W) (L : Laws P Q) (E : UpgradeLaws P Q) (br : BR) (w : W)
     (o : StepOutX W) (b : BR) (h : reconcileX P br w = .val o) (hb : o.br = some b)
     (hwf : Q.wf w = true) (hok : Q.expoOK (withFinalizer br) w = true) :
     writeWithinBatch (Q.exposure w) (Q.exposure o.wl) (Q.allowed (withFinalizer br) w) br b = true := by
